@@ -17,6 +17,99 @@ NOTES = ('All checks: bin/check <ID> --tier quick|thorough [--replay file]; '
          'fixes: /verif/KNOWN_FINDINGS.txt. Design: /verif/DESIGN.md.')
 
 CHECKS = {
+    'C05': dict(
+        level='exploration',
+        technique='runtime monitoring: string-splice oracle, one edit per '
+                  'fresh parse, plus identity-based pre/post contracts '
+                  'attached to the real mutators (probe pass)',
+        text='Every delete / replace_with / parent.remove / parent.replace on '
+             'every non-root node, and insert at every index / append on '
+             'every container, of generated documents with textual twins '
+             'changed exactly the targeted span of the serialised text.',
+        note='Positions of the fresh parse are taken as true offsets (C13).',
+        design_ref='4/C05'),
+    'C09': dict(
+        level='exploration',
+        technique='runtime monitoring: constructed inputs with known '
+                  'separators; argument lists, contents and remainder '
+                  'compared with the construction',
+        text='For every (kinds, separators) combination up to 3 groups '
+             '(exhaustive over a reduced separator set, all 15 contexts) and '
+             'random larger cases, the attached arguments were the maximal '
+             'attaching prefix with exact contents and the remainder followed '
+             'verbatim; bare brackets stayed text.',
+        note='Bracket groups precede brace groups, as in the statement.',
+        design_ref='4/C09'),
+    'C10': dict(
+        level='exploration',
+        technique='runtime monitoring: metamorphic oracle (payload '
+                  'substitution) on the real parser, 13 contexts x 0..4 '
+                  'backslashes',
+        text='For every hostile payload pair the tree had exactly one comment '
+             'leaf, the shape did not depend on the payload, nothing in the '
+             'payload was searchable and the text round-tripped; with an odd '
+             'number of backslashes the document behaved as with \\&.',
+        note='Reference for escaped percent: same document with \\& .',
+        design_ref='4/C10'),
+    'C11': dict(
+        level='exploration',
+        technique='runtime monitoring: constructed verbatim-like environments '
+                  '(built-in and skip_envs names) with hostile bodies; body / '
+                  'arguments / search / renaming differential',
+        text='Every generated body (inside the provisos) was kept as one raw '
+             'text up to the first \\end{name}, unsearchable, round-tripping; '
+             'user names behaved like built-in ones; without the option the '
+             'body was parsed.',
+        note='Known finding: blanks + brace/bracket at the start of the body '
+             'are read as arguments.',
+        design_ref='4/C11'),
+    'C12': dict(
+        level='exploration',
+        technique='runtime monitoring: constructed math regions (4 delimiter '
+                  'pairs, 17 environments) with generated bodies; class / '
+                  'delimiters / body / search compared with the construction',
+        text='Every region yielded one math node of the right kind with the '
+             'exact body; brackets stayed text; every sizing prefix x '
+             'delimiter was one argument-less command; zero-argument '
+             'operators took no bracket; adjacent regions were separate.',
+        note='Known finding: `$a$` directly followed by `$$b$$`.',
+        design_ref='4/C12'),
+    'C14': dict(
+        level='exploration',
+        technique='runtime monitoring: one setter per fresh parse vs the '
+                  'reference document model (splice), search after the '
+                  'change, re-parse shape comparison',
+        text='Every rename / string assignment / argument slice, permutation, '
+             'reversal / argument string on every command and environment '
+             'changed exactly that part of the text, was visible to search '
+             'and survived re-parsing.',
+        note='Re-parse equality only where the names have no parser '
+             'semantics and the new argument kinds re-attach.',
+        design_ref='4/C14'),
+    'C15': dict(
+        level='exploration',
+        technique='runtime monitoring: edit histories on the real tree vs an '
+                  'executable document model, compared after every step '
+                  '(text, identity conservation, navigation/search relations)',
+        text='Every history up to the depth bound over all valid (op, '
+             'target, index) on 16 small documents (exhaustive) and random '
+             'histories up to 25 steps kept the text equal to the model and '
+             'search/descendants/parent/text mutually consistent.',
+        note='The model is built from the initial parse.',
+        design_ref='4/C15'),
+    'C17': dict(
+        level='exploration',
+        technique='runtime monitoring: input-form differential, '
+                  'PYTHONHASHSEED sweep in fresh interpreters with offline '
+                  'digest comparison, interleaving projection of two edit '
+                  'scripts, object-sharing check, global-state sentinel',
+        text='All input forms gave identical results; 8 (quick) / 64 '
+             '(thorough) hash seeds gave identical digests on the corpus '
+             '(incl. every sizing prefix x delimiter); all 20 interleavings '
+             'of two scripts projected to the solo runs; double parses shared '
+             'no mutable object; module-level state was unchanged.',
+        note='Files are read without newline translation.',
+        design_ref='4/C17'),
     'C03': dict(
         level='exploration',
         technique='runtime monitoring: find_all/find/count/getattr compared '
